@@ -1,6 +1,6 @@
 #!/bin/sh
 # tools/confirm_seed.sh <id>  -- confirm both seeded changes of /tmp/seed/out/<id> in worktree /tmp/seed/<id>
-id=$1; wt=/tmp/seed/$id; out=/tmp/seed/out/$id
+id=$1; base=${2:-/tmp/seed}; wt=$base/$id; out=$base/out/$id
 for k in 1 2; do
   [ -f $out/change$k.diff ] || { echo "$id/$k MISSING"; continue; }
   git -C $wt checkout -q -- . ; git -C $wt clean -fdq
